@@ -154,6 +154,38 @@ NEUTRAL_ROW = {"id": 1, "a": 0, "b": 0, "s": "", "u": "", "f": False}
 
 
 # ---------------------------------------------------------------------- one program
+def foreign_chars(sql: str, filter_literals: str = "") -> str:
+    """Printable characters inside the string literals of an emitted text that are neither in the base alphabet nor
+    came from the filter's own literals: the translator brought them into play (e.g. ESCAPE '!')."""
+    out = []
+    try:
+        toks = SP.tokenize(sql)
+    except SP.SqlIllFormed:
+        return ""
+    for kind, val, _ in toks:
+        if kind == "str":
+            for ch in val:
+                if ch not in V.BASE_ALPH and ch not in filter_literals and ch not in out and ch.isascii() and ch.isprintable() \
+                        and not ch.isalnum():
+                    out.append(ch)
+    return "".join(out)
+
+
+def discover_extra_alphabet(dialects=("sqlite",)) -> str:
+    """Probe the live visitors with the metacharacter literals and collect the characters they introduce."""
+    found = ""
+    for d in dialects:
+        for fn in ("contains", "startswith", "endswith"):
+            for lit in ("%", "_", "a%", "\\", "'", "a"):
+                text = f"{fn}(s,'" + lit.replace("'", "''") + "')"
+                st, sql = real_sql(text, d)
+                if st == "ok" and isinstance(sql, str):
+                    for ch in foreign_chars(sql, lit):
+                        if ch not in found:
+                            found += ch
+    return found[:3]
+
+
 def check_program(item: dict) -> dict:
     global ACTIVE_MUTANT
     t0 = time.time()
@@ -162,6 +194,7 @@ def check_program(item: dict) -> dict:
     if ACTIVE_MUTANT:
         out["mutant"] = ACTIVE_MUTANT
     try:
+        V.set_alphabet(item.get("extra_alphabet", ""))
         _check(item, out)
     except V.Unmodelled as e:
         out["status"] = "outside"
@@ -171,6 +204,7 @@ def check_program(item: dict) -> dict:
         out["why"] = f"{type(e).__name__}: {e}\n{traceback.format_exc(limit=6)}"
     finally:
         ACTIVE_MUTANT = None
+        V.set_alphabet("")
     out["wall_s"] = round(time.time() - t0, 3)
     return out
 
